@@ -62,6 +62,7 @@ def handle (st : DState) (line : String) : DState × String :=
   | "pval" :: args => (st, cmdPval args)
   | "cfg" :: args => (st, cmdCfg args)
   | "dl" :: args => (st, cmdDownload args)
+  | "dh" :: args => (st, cmdDatasetHist args)
   | "sea" :: args => (st, cmdSea args)
   | "t2" :: args => (st, cmdTests2 args)
   | "x" :: args => let (a, r) := cmdAux st.aux args; ({ st with aux := a }, r)
